@@ -160,7 +160,12 @@ def run_many(fn, arglist, workers=16, timeout=600, wall_s=None, on_result=None,
         w.done += 1
 
     while True:
-        if wall_s is not None and pending and time.time() - t0 > wall_s:
+        # soft budget: no new run is dispatched after wall_s seconds.  On a machine that is
+        # shared with other work (several checks started at once) the same number of seconds
+        # buys far fewer runs, so the budget is stretched by the load per core, at most
+        # threefold: the planned exploration gets done, the check stays bounded.
+        if wall_s is not None and pending and \
+                time.time() - t0 > wall_s * min(3.0, max(1.0, _load_factor())):
             pending = []
         # hand out work
         for w in list(pool):
